@@ -61,7 +61,12 @@ type V struct {
 	Text string `json:"text,omitempty"` // leaf: the JSON text the marshaler is expected to write
 	Type string `json:"type,omitempty"` // obj: concrete GraphQL type
 	L    []V    `json:"l,omitempty"`
+	// obj: values of the fields bound as plain struct fields, by GraphQL field name
+	Fields map[string]V `json:"fields,omitempty"`
 }
+
+// Plain lists, per object type, the fields bound as plain struct fields (set by the generated main).
+var Plain map[string][]string
 
 // Inv is one logged user-code invocation.
 type Inv struct {
@@ -407,6 +412,7 @@ func (u *U) build2(s *State, rt reflect.Type, gt *ast.Type, path string, h uint6
 		}
 		pv := reflect.New(ct)
 		v := V{K: "obj", Type: name}
+		u.fillPlain(s, pv.Elem(), name, path, &v)
 		switch rt.Kind() {
 		case reflect.Ptr:
 			if rt.Elem() == ct {
@@ -429,6 +435,43 @@ func (u *U) build2(s *State, rt reflect.Type, gt *ast.Type, path string, h uint6
 		return setScalar(rt, val, h), V{K: "leaf", Text: strconv.Quote(val)}
 	default: // scalar
 		return u.scalar(rt, gt.NamedType, h)
+	}
+}
+
+// fillPlain sets the struct fields of a freshly built object that are bound as plain fields: their value
+// is a function of (seed, object path, field NAME) - every alias of the field sees the same value.
+func (u *U) fillPlain(s *State, sv reflect.Value, typeName, objPath string, v *V) {
+	names := Plain[typeName]
+	if len(names) == 0 {
+		return
+	}
+	def := s.Schema.Types[typeName]
+	v.Fields = map[string]V{}
+	for _, fn := range names {
+		fd := def.Fields.ForName(fn)
+		if fd == nil {
+			continue
+		}
+		// find the struct field by its json tag
+		var sf reflect.Value
+		for i := 0; i < sv.NumField(); i++ {
+			tag := strings.Split(sv.Type().Field(i).Tag.Get("json"), ",")[0]
+			if tag == fn {
+				sf = sv.Field(i)
+				break
+			}
+		}
+		if !sf.IsValid() || !sf.CanSet() {
+			panic("universal: no struct field for plain field " + typeName + "." + fn)
+		}
+		h := fnv(s.Plan.Seed, objPath+"."+fn)
+		if nilable(sf.Type()) && int(h%1000) < s.Plan.Rates.Nil+s.Plan.Rates.Err {
+			v.Fields[fn] = V{K: "null"} // stays the zero value (nil pointer)
+			continue
+		}
+		val, fv := u.build2(s, sf.Type(), fd.Type, objPath+"."+fn, h, false, nil)
+		sf.Set(val)
+		v.Fields[fn] = fv
 	}
 }
 
